@@ -141,9 +141,14 @@ def verify_function(front: Front, reg, contracts: ContractSet, c: Contract, shap
     except ContractOutOfDate as u:
         status["status"] = "contract-out-of-date"
         status["reason"] = str(u)
-    except Exception as e:  # engine defect
-        status["status"] = "crash"
-        status["reason"] = f"{type(e).__name__}: {e}\n{traceback.format_exc()[-1500:]}"
+    except Exception as e:  # engine defect - unless an opaque value of an attribute outside the contract's state model was used (contract out of date)
+        if "unmodelled" in str(e):
+            status["status"] = "contract-out-of-date"
+            status["reason"] = f"an attribute outside the contract's state model is used in a way its havoc'd value does not support ({type(e).__name__}: {str(e)[:200]})"
+            obls = [o.as_dict() for o in ex.obligations]
+        else:
+            status["status"] = "crash"
+            status["reason"] = f"{type(e).__name__}: {e}\n{traceback.format_exc()[-1500:]}"
     obls = [o.as_dict() for o in ex.obligations]
     if status.get("status") == "ok" and c.must_return(shape):
         # reachability cover: with no normally returning path every postcondition would hold vacuously (e.g. a loop that can no longer be left)
